@@ -108,7 +108,7 @@ def spec_categories(spec):
 
 def labels_for(spec, unlabelled_ok=False):
     cats = spec_categories(spec)
-    return cats if cats is not None else LABELS_ABC
+    return cats if cats is not None else LABELS_ABC + [""]
 
 
 # ------------------------------------------------------------------ continua
@@ -236,7 +236,9 @@ def continuum_and_spec(draw, kinds=("pos", "abs", "precomputed", "lev", "ordinal
     if cats is None and unlabelled_ratio > 0:
         r = draw(st.integers(0, 99))
         unl = True if r < unlabelled_ratio * 100 else ("mixed" if r < 2 * unlabelled_ratio * 100 else False)
-    cont = draw(continua(labels=cats if cats is not None else LABELS_ABC, unlabelled=unl, **kw))
+    # without a category table any string is a label, the empty string included
+    free = LABELS_ABC + [""] if draw(st.integers(0, 5)) == 0 else LABELS_ABC
+    cont = draw(continua(labels=cats if cats is not None else free, unlabelled=unl, **kw))
     return {"continuum": cont, "dissim": spec}
 
 
